@@ -21,6 +21,8 @@ def protoStep (toks : List String) : Option String :=
       | .ok (n, d) => s!"ok {n} {toHex d}"
       | .error .eof => "err eof" | .error .badNumber => "err badnumber" | .error .badLength => "err badlength")
   | ["ischan", b] => some (toString (isChannelData (parseHex b)))
+  | ["aeq", i1, p1, i2, p2] => some (toString (FT.addrEqual ⟨parseHex i1, natOf p1⟩ ⟨parseHex i2, natOf p2⟩))   -- ipnet.AddrEqual
+  | ["pkey", i1, i2] => some (toString (FT.ipEqual (parseHex i1) (parseHex i2)))   -- FingerprintAddr a == FingerprintAddr b
   | ["fp", p1, si1, sp1, di1, dp1, p2, si2, sp2, di2, dp2] =>
     -- FiveTuple.Equal on two 5-tuples (internal/allocation/five_tuple.go)
     let t1 : FT.Tuple := ⟨natOf p1, ⟨parseHex si1, natOf sp1⟩, ⟨parseHex di1, natOf dp1⟩⟩
